@@ -88,6 +88,11 @@ func RunPrimary(prop string, src Source, o *PrimaryOpts) (*Case, error) {
 	if o == nil {
 		o = &PrimaryOpts{}
 	}
+	// every contract-path tx of every history is predicted by the reference EVM (vanilla go-ethereum over the
+	// model's balances and nonces)
+	c.W.EVM = NewEVMRef()
+	c.W.EVM.syncIn(c.W, c.W.EVM.db)
+	c.W.EVM.EndBlock(0)
 	for {
 		t0 := time.Now()
 		b := src.StartBlock(c.W)
